@@ -37,6 +37,9 @@ type Cfg struct {
 	// ForceInterval: storage_force_snapshot_interval is enabled; "the interval elapses" is an environment answer
 	// offered whenever the loop sleeps (once per life).
 	ForceInterval bool `json:"force_interval"`
+	// OldEntries (native mode): the tomb sweeper is enabled (retention 1 day) and instance a's history holds live
+	// entries older than the retention, one of them with an empty value (docs/schema.md recommends empty values).
+	OldEntries bool `json:"old_entries"`
 }
 
 type Viol struct{ Sig, Msg string }
@@ -147,6 +150,9 @@ func Run(cfg Cfg, ctx *explore.Ctx) Result {
 	defer verifhook.SetNow(nil)
 	opt := inst.Opt{Native: cfg.Native, Tweak: func(c *config.Config, lc *config.LMDB) {
 		c.StorageRetryCount = 3
+		if cfg.OldEntries {
+			c.Sweeper = config.Sweeper{Enabled: true, RetentionDays: 1, Interval: 11 * time.Minute, FirstInterval: 11 * time.Minute, LockDuration: time.Second, ReleaseDuration: time.Second}
+		}
 		if cfg.ForceInterval {
 			c.StorageForceSnapshotInterval = 100 * time.Hour
 		}
@@ -171,6 +177,14 @@ func Run(cfg Cfg, ctx *explore.Ctx) Result {
 	bi.Destroy()
 	a := inst.New("a", w.b, opt)
 	put(a, "ka", "a1")
+	if cfg.OldEntries && cfg.Native {
+		old := w.clock - uint64(48*time.Hour)
+		a.AppTxn(func(txn *lmdb.Txn) error {
+			inst.NativePut(txn, "d", []byte("kold-empty"), old, false, nil)
+			inst.NativePut(txn, "d", []byte("kold"), old+1, false, []byte("v"))
+			return nil
+		})
+	}
 	if _, err := a.Send(); err != nil {
 		panic(err)
 	}
@@ -335,6 +349,8 @@ func (w *W) runLife(a *inst.Inst, ctx *explore.Ctx, totalSteps *int, put func(a 
 			switch {
 			case p.Thread == "sync" || p.Thread == "syncmain":
 				loop = p
+			case p.Point == "sleep.other":
+				// timers of the tomb sweeper (it only enables the load cutoff here) never fire in this scenario
 			case p.Point == "sleep.storagepoll":
 				recvSleep = p
 			case p.Point == "sleep.retry" && p.Thread != "sync" && p.Thread != "syncmain":
